@@ -130,6 +130,41 @@ func c14XMLEncode(c *c14ctx) {
 	if c.bin && !c.sameAsBinary(text, input, append([]string{"-o=xml"}, append(flags, ".")...)...) {
 		return
 	}
+	if c.bin || (len(flags) > 0 && !c.w.Race) {
+		// the in-expression encoder works from the same preferences as -o=xml: same text
+		ind := 2
+		var fl []string
+		for _, f := range flags {
+			if strings.HasPrefix(f, "-I") {
+				fmt.Sscanf(f, "-I%d", &ind)
+				continue
+			}
+			fl = append(fl, f)
+		}
+		ex := fmt.Sprintf("to_xml(%d)", ind)
+		if ind == 2 && c.ch(2) == 0 {
+			ex = []string{"to_xml", "@xml"}[c.ch(2)]
+		}
+		if ex == "@xml" {
+			ind = 0
+		}
+		if o, serr, exit, ok := c.binary(input, append(fl, ex)...); ok {
+			c.tag("xml:in_expression_encoder")
+			want := text
+			if ex == "@xml" {
+				w0, ok0 := c.evalOK("xml encode -I0", ".", input, c14YAMLDec(), func() yqlib.Encoder { q := prefs; q.Indent = 0; return yqlib.NewXMLEncoder(q) }())
+				if !ok0 {
+					return
+				}
+				want = w0
+			}
+			if exit != 0 || strings.TrimRight(o, "\n") != strings.TrimRight(want, "\n") {
+				c.violated("yq %s '%s' (exit %d, %s) does not print what -o=xml prints for the same preferences\n-o=xml:\n%s\n%s:\n%s\ninput: %s",
+					strings.Join(fl, " "), ex, exit, clipStr(serr, 200), clipStr(want, 700), ex, clipStr(o, 700), clipStr(input, 500))
+				return
+			}
+		}
+	}
 	tree, err := ref.XMLParse(text)
 	if err != nil {
 		c.violated("yq -o=xml output is not well-formed XML: %v\noutput: %s\ninput: %s", err, clipStr(text, 800), clipStr(input, 600))
